@@ -11,7 +11,8 @@ renamed either to names *outside* the pair's name universe (fnN / varN / S<id> /
 symbol has) or to real names (then most sections are satisfiable).  Whether a file matches nothing is decided by TLC from
 the model facts in the event: every interface of both programs, every named type of both programs plus the kinds of unnamed
 types, the paths and SONAMEs of the two binaries; a pattern counts as matching no unnamed type only if each alternative needs
-a letter no generated name contains; sections with name_not_regexp are never "unmatched".  Satisfiable files are discarded.
+a letter no generated name contains; sections with name_not_regexp are never "unmatched"; data members count as variables
+(libabigail applies [suppress_variable] sections to the var_diff nodes of data members).  Satisfiable files are discarded.
 Guard: report bytes and exit status with the file equal the run without it, under several reporting modes.
 
 Reading: "matches no artifact" = no constraint set of the section is satisfied by any interface / type / binary of the model;
@@ -93,6 +94,7 @@ def main():
         env = vf.henv(da)
         ifaces = S.iface_records(case, "ab")
         types = S.type_records(case, all_via_ptr=True)
+        members = S.member_names(case)
         rng = c.rng.__class__(c.seed * 15485863 + idx)
         base = {}
         evs = []
@@ -116,7 +118,7 @@ def main():
                 base[key] = S.abidiff(tool, a, b, opts, env=env)
             r0 = base[key]
             r1 = S.abidiff(tool, a, b, opts, suppr=f, env=env)
-            evs.append(("ok", {"e": "Unmatched", "case": idx, "comp": comp, "k": k, "strata": names, "opts": key, "sections": secs, "ifaces": ifaces, "types": types,
+            evs.append(("ok", {"e": "Unmatched", "case": idx, "comp": comp, "k": k, "strata": names, "opts": key, "sections": secs, "ifaces": ifaces, "types": types, "members": members,
                                "env": {"paths": [a, b], "bases": [os.path.basename(a), os.path.basename(b)], "sonames": ["", ""]}, "exit0": r0.exit, "exit1": r1.exit, "same": r0.out == r1.out,
                                "changes": r0.exit != 0, "ret": campaign.retof(r0, r1), "out0": r0.out[:200], "out1": r1.out[:200]}))
         return evs
